@@ -139,6 +139,29 @@ func emitBuiltins(em *Emitter, repoDir string, seedv int64, pass int) {
 		}
 		em.Emit(map[string]interface{}{"op": "tolerance", "char": cs, "kind": res.Kind, "err": res.Err, "draws": len(o.Draws)})
 	}
+	// ... and a ladder of one-character recipes "k required characters out of N" around the exact threshold 0.0984468
+	for _, kn := range [][2]int{{5, 51}, {10, 102}, {15, 153}, {96, 976}, {49, 499}, {98, 995}, {99, 1005}, {10, 101}, {1, 10}, {9, 100}, {1, 11}, {2, 21}} {
+		k, N := kn[0], kn[1]
+		var req, rest []int
+		for i := 0; i < N; i++ {
+			if i < k {
+				req = append(req, 0x4E00+i)
+			} else {
+				rest = append(rest, 0x4E00+i)
+			}
+		}
+		cs := CharSpec{Len: 1, AllowChars: rest, RequireSets: [][]int{req}}
+		cs.norm()
+		r := cs.Recipe()
+		e := NewEnum(*seed)
+		e.Policy = func(j int, n uint32) uint32 { return uint32(e.Rng.Int63n(int64(n))) }
+		var res GenRes
+		o := e.Run(nil, func() { p, err := r.Generate(); res = ResOf(p, err, nil) })
+		if o.Panic != nil {
+			res = ResOf(nil, nil, o.Panic)
+		}
+		em.Emit(map[string]interface{}{"op": "tolerance", "char": cs, "kind": res.Kind, "err": res.Err, "draws": len(o.Draws)})
+	}
 	// separator presets: the complete choice tree of each function
 	names := []string{"SFNone", "SFDigits1", "SFDigits2", "SFDigitsNoAmbiguous1", "SFDigitsNoAmbiguous2", "SFSymbols", "SFDigitsSymbols"}
 	for _, name := range names {
